@@ -14,7 +14,7 @@ func main() {
 	ln, _ := strconv.Atoi(os.Args[2])
 	seed, _ := strconv.ParseInt(os.Args[3], 10, 64)
 	for i := 0; i < n; i++ {
-		lines, err := tracegen.Generate(tracegen.Opts{K: 12, Len: ln, Seed: seed + int64(i), Palette: "single", Cache: 0, Flush: 100000})
+		lines, err := tracegen.Generate(tracegen.Opts{K: 12, Len: ln, Seed: seed + int64(i), Palette: "single", Cache: 0, Flush: 100000, EmptyFirstKey: os.Getenv("EMPTYKEY") != ""})
 		for _, l := range lines {
 			fmt.Println(l)
 		}
